@@ -133,6 +133,8 @@ def _reader_world(model, ch, entry, checks_end=(CHECK_OK,), n_rows_options=(0, 1
     @stub
     def raw_rows_stub(interp, args, kwargs):
         def produce(index):
+            if rows_holder.get("warm_up"):
+                return rows_holder["rows"][index] if index < len(rows_holder["rows"]) else AbsIter.STOP
             if rows_holder["fault_at"] == index:
                 interp.event("container-fault", index, None)
                 interp.raise_("cutplace.errors.DataFormatError", Opaque("str", True, ["<broken container>"]), None)
@@ -147,6 +149,8 @@ def _reader_world(model, ch, entry, checks_end=(CHECK_OK,), n_rows_options=(0, 1
     def validate_row_stub(interp, args, kwargs):
         validator, row = args
         location = validator.attrs.get("_location")
+        if rows_holder.get("warm_up"):
+            return None  # first pass of a "second pass" run: every row is fine, nothing is recorded
         outcome = ch.choose(("validate_row", len(interp.events)), ["ok", "DataError"])
         row_id = rows_holder["ids"].get(id(row), "?")
         interp.event("validate_row", row_id, "line=%s" % (location.attrs.get("_line") if isinstance(location, Obj) else None), outcome)
@@ -160,7 +164,7 @@ def _reader_world(model, ch, entry, checks_end=(CHECK_OK,), n_rows_options=(0, 1
     world = World(model, interp, ch)
     checks = [world.recording_check(0, end_outcomes=checks_end), world.recording_check(1, end_outcomes=checks_end)]
     limit_kind = ch.choose("limit", ["none", "n"])
-    mode = ch.choose("mode", list(modes)) if entry in ("Reader.rows", "rows()", "validate_rows") else "raise"
+    mode = ch.choose("mode", list(modes)) if entry in ("Reader.rows", "Reader.rows twice", "rows()", "validate_rows") else "raise"
     n_rows = ch.choose("raw rows", list(n_rows_options))
     if numeric == "order":
         header = Sym("h", integer=True)
@@ -194,8 +198,15 @@ def reader_rows_run(model, ch, entry="Reader.rows", max_rows=3, numeric="order")
     items = []
     reader = None
     try:
-        if entry == "Reader.rows":
+        if entry in ("Reader.rows", "Reader.rows twice"):
             reader = _construct(interp, READER, [cid, stream], {"on_error": run["mode"], "validate_until": run["limit"]})
+            if entry == "Reader.rows twice":
+                # a complete first pass over the same data; what is compared is the second pass on the same Reader
+                run["holder"]["warm_up"] = True
+                for _ in interp.iterate(interp.call_function(model.func(READER + ".rows"), [reader], {}, None)):
+                    pass
+                run["holder"]["warm_up"] = False
+                del interp.events[:]
             generator = interp.call_function(model.func(READER + ".rows"), [reader], {}, None)
         elif entry == "rows()":
             generator = interp.call_function(model.func("cutplace.validio.rows"), [cid, stream, run["mode"], run["limit"]], {}, None)
@@ -325,17 +336,17 @@ def reader_rows_oracle(run, aspects):
                 if outcome[0] != "raise" or exc_name(outcome[1]) != "DataFormatError":
                     raise Mismatch("container fault at raw row %d did not stop reading with DataFormatError in mode %s%s" % (
                         k, mode, " (it was replaced by %s)" % exc_name(outcome[1]) if outcome[0] == "raise" else ""))
-            if entry not in ("Reader.rows", "validate_rows"):
+            if entry not in ("Reader.rows", "Reader.rows twice", "validate_rows"):
                 _expect_close(cursor, entry, aspects)
             cursor.done()
             return "conforms"
         if stopped == "raised":
-            if entry not in ("Reader.rows", "validate_rows"):
+            if entry not in ("Reader.rows", "Reader.rows twice", "validate_rows"):
                 _expect_close(cursor, entry, aspects)
             cursor.done()
             return "conforms"
         end_failed = False
-        if entry not in ("Reader.rows", "validate_rows"):
+        if entry not in ("Reader.rows", "Reader.rows twice", "validate_rows"):
             end_failed = _expect_close(cursor, entry, aspects)
         cursor.done()
         if end_failed:
@@ -389,8 +400,8 @@ def reader_rows_table(ctx, rule, aspects, entry="Reader.rows"):
         run = reader_rows_run(ctx.model, ch, entry, max_rows, numeric[0])
         return (_rows_key(run), reader_rows_oracle(run, aspects), "conforms")
 
-    qualname = {"Reader.rows": READER + ".rows", "rows()": "cutplace.validio.rows", "validate()": "cutplace.validio.validate",
-                "validate_rows": READER + ".validate_rows"}[entry]
+    qualname = {"Reader.rows": READER + ".rows", "Reader.rows twice": READER + ".rows", "rows()": "cutplace.validio.rows",
+                "validate()": "cutplace.validio.validate", "validate_rows": READER + ".validate_rows"}[entry]
     table = "%s[%s]" % (entry, "+".join(sorted(aspects)))
     try:
         return decide(ctx, rule, table, qualname, cell, min_cells=40)
